@@ -291,10 +291,10 @@ PROPS = {
     "C14": {
         "nt_rule": "soft_rejected_or_accepted",
         "level": "other", "module": "Resolvo.Props.C14", "imports": ["Resolvo.MDet.CheckedProofs"],
-        "theorems": ["Resolvo.MDet.solveChecked_soft_never_error", "Resolvo.MDet.solveChecked_ok_valid", "Resolvo.C14.exempt_only_affects_lock_exclusion", "Resolvo.C14.never_error"],
+        "theorems": ["Resolvo.C14.soft_never_error", "Resolvo.C14.soft_result_valid", "Resolvo.C14.softInstallable_sound", "Resolvo.MDet.solveChecked_soft_never_error", "Resolvo.MDet.solveChecked_ok_valid", "Resolvo.C14.exempt_only_affects_lock_exclusion", "Resolvo.C14.never_error"],
         "families": [("soft", SOFT_Q)],
         "profiles": ["debug", "release"],
-        "explanation": "PROVED: a history accepted by the abstract system never reports Unsolvable for a solvable hard problem; the exemption affects only the lock/exclusion conjunct. CHECKED PER RUN on the soft family: validB with exemption, verdict vs verified decideSolvable, history acceptance, no panic (debug and release).",
+        "explanation": "PROVED for the checked model (every universe / problem / list of soft solvables in any order / solver state / fuel): soft_never_error - a solvable hard problem never ends Unsolvable; soft_result_valid - the result satisfies C01 for the hard requirements and every accepted soft solvable (dependencies installed, constraints hold, Unknown-dependency solvables rejected, one per package; only accepted soft solvables are exempt from their own package's lock / exclusion) - the first sentence of C14 and `silently skipped`. softInstallable_sound: the oracle of the inclusion sentence only objects with a witness extension that keeps the solution valid. A history accepted by the abstract system never reports Unsolvable for a solvable hard problem; the exemption affects only the lock/exclusion conjunct. THE INCLUSION SENTENCE (a compatible soft solvable is included) is decided per run by softInstallable and has one open known finding (soft-poisoned, see known_findings.json): it is false of the unchanged code when an excluded / locked-out soft solvable was accepted earlier. CHECKED PER RUN on the soft family: validB with exemption, verdict vs verified decideSolvable, history acceptance, no panic (debug and release).",
     },
     "C19": {
         "facts": ['chunk_sizes_positive'],
